@@ -33,10 +33,13 @@ def _fix(front, back, req_fr, resp_fr):
 
 
 def scn(front, back, n, req_fr, req_size, resp_fr, resp_size, step=1, chunk=16384, pad=0, cfrag=0, cpause=0,
-        bfrag=0, bpause=0, sockbuf=0, win=65535, abort=0, seed=1, bufsz=BUF, stagger=0, bset_delay=0, sep_end=0, mix=0):
+        bfrag=0, bpause=0, sockbuf=0, win=65535, abort=0, seed=1, bufsz=BUF, stagger=0, bset_delay=0, sep_end=0, mix=0,
+        interim=0):
     req_fr, resp_fr = _fix(front, back, req_fr, resp_fr)
+    if front == "h1" and req_fr == "datacl":
+        req_fr = "cl"
     return ["blackbox", front, back, bufsz, n, req_fr, req_size, resp_fr, resp_size, step, chunk, pad, cfrag, cpause,
-            bfrag, bpause, sockbuf, win, abort, seed, stagger, bset_delay, sep_end, mix]
+            bfrag, bpause, sockbuf, win, abort, seed, stagger, bset_delay, sep_end, mix, interim]
 
 
 def name_of(op):
@@ -94,6 +97,24 @@ def quick_scenarios(rng):
         scn("h2", "h1", 2, "data", 20000, "chunked", 30000, chunk=1000, sep_end=1, seed=s()),
         scn("h1", "h2", 2, rng.choice(["cl", "chunked"]), 20000, "data", 30000, chunk=1000, sep_end=1, seed=s()),
         scn("h2", "h2", 3, "data", 20000, "data", 30000, chunk=1000, sep_end=1, seed=s()),
+        # responses of an h2c backend that carry no DATA payload, END_STREAM on the HEADERS frame or on an empty DATA
+        # frame of its own (witnesses of the fixes 29b5d33, 16bca1e, 9ae482c): `content-length: 0` + empty DATA,
+        # HEAD answered with the length of the GET body, 204 / 304 (the 304 may declare a length), then the same
+        # connection goes on (keep-alive HTTP/1.1 client, further H2 streams)
+        scn("h2", "h2", 1, "data", 100, "datacl", 0, step=0, chunk=1000, seed=s()),
+        scn("h1", "h2", 3, rng.choice(["none", "cl"]), 100, "datacl", 0, step=0, chunk=1000, seed=s()),
+        scn(rng.choice(["h1", "h2"]), "h2", 3, "head", 0, "head", 5000, sep_end=rng.choice([0, 1]), seed=s()),
+        scn("h1", "h2", 3, "none", 0, "s204", 0, sep_end=rng.choice([0, 1]), seed=s()),
+        scn(rng.choice(["h1", "h2"]), "h2", 3, "none", 0, "s304", rng.choice([0, 700]), sep_end=rng.choice([0, 1]), seed=s()),
+        # interim responses are forwarded, once, and the final response follows: 100 Continue from an h2c backend
+        # (witness of db80a2d), 103 sent in the same write as the final response by either kind of backend (the
+        # HTTP/1.1 one is the witness of 4ad6153)
+        scn("h1", "h2", 2, "clexp", 20000, "datacl", 3000, seed=s()),
+        scn(rng.choice(["h1", "h2"]), "h2", 3, rng.choice(["none", "cl"]), 5000, "datacl", 3000, interim=103, seed=s()),
+        scn("h1", "h1", 3, "none", 0, "cl", 3000, interim=103, seed=s()),
+        scn("h2", "h1", rng.choice([1, 3]), "none", 0, rng.choice(["cl", "chunked"]), 3000, chunk=1000, interim=103, seed=s()),
+        # an H2 request that declares its content-length, 0 included (then the END_STREAM comes on an empty DATA frame)
+        scn("h2", rng.choice(["h1", "h2"]), 3, "datacl", rng.choice([0, 5000]), "cl", 100, step=0, chunk=1000, sep_end=rng.choice([0, 1]), seed=s()),
         # unclean ends stay unclean
         scn("h1", "h1", 1, "cl", 50000, rng.choice(["cl", "chunked"]), 50000, chunk=1000, abort=1, seed=s()),
         scn("h2", "h2", 1, "data", 50000, "data", 50000, chunk=1000, abort=1, seed=s()),
@@ -113,7 +134,7 @@ def random_scenario(rng, big=False):
     if front == "h1":
         req_fr = rng.choice(["cl", "chunked", "none"])
     else:
-        req_fr = rng.choice(["data", "data", "none"])
+        req_fr = rng.choice(["data", "data", "datacl", "none"])
     resp_fr = rng.choice(["cl", "chunked", "close", "chunkedtr"]) if back == "h1" else rng.choice(["data", "datacl", "datatr"])
     if rng.random() < 0.1:
         req_fr = "chunkedtr" if front == "h1" else "datatr"
@@ -159,7 +180,7 @@ def random_scenario(rng, big=False):
     return scn(front, back, n, req_fr, req_size, resp_fr, resp_size, step=rng.choice([0, 1, 9]), chunk=chunk, pad=pad,
                cfrag=frag(), cpause=pause(), bfrag=frag(), bpause=pause(), sockbuf=sockbuf, win=win, abort=abort,
                seed=rng.randrange(1, 10 ** 6), bufsz=rng.choice([BUF, BUF, 32768]),
-               sep_end=int(rng.random() < 0.25), mix=mix_,
+               sep_end=int(rng.random() < 0.25), mix=mix_, interim=103 if not abort and rng.random() < 0.1 else 0,
                stagger=int(front == "h2" and back == "h2" and rng.random() < 0.2) or (2 if front == "h1" and not abort and resp_fr != "close" and rng.random() < 0.2 else 0), bset_delay=rng.choice([0, 0, 0, 30]) if back == "h2" else 0)
 
 
